@@ -141,6 +141,27 @@ class PathRule(object):
         return state
 
 
+def unknown_self_helper(model, fref, call, selfname):
+    """``self.<name>(...)`` where <name> is a method of the class that the rules do not know (not part of the pinned tree's
+    function inventory), takes ``self`` under the same name and is not overridden in a subclass: its FunctionDef, else None"""
+    from .known_funcs import KNOWN_FUNCS
+    if fref.cls is None or not (isinstance(call.func, ast.Attribute) and isinstance(call.func.value, ast.Name)
+                                and call.func.value.id == selfname):
+        return None
+    lk = fref.cls.lookup(call.func.attr)
+    if lk is None or call.func.attr in lk[0].properties:
+        return None
+    fn = lk[1]
+    q = "%s.%s" % (lk[0].qname, fn.name)
+    if q in KNOWN_FUNCS or not fn.args.args or fn.args.args[0].arg != selfname or fn is fref.node:
+        return None
+    if any(isinstance(n, (ast.Yield, ast.YieldFrom)) for n in ast.walk(fn)):
+        return None
+    if any(call.func.attr in c.methods and c is not lk[0] for c in model.subclasses(fref.cls)):
+        return None
+    return fn
+
+
 class Exits(object):
     def __init__(self):
         self.normal = set()     # states falling off the end
@@ -193,6 +214,7 @@ class Walker(object):
 
     def __init__(self, rule):
         self.rule = rule
+        self.depth = 0
 
     def run(self, func_node, init_states):
         ex = Exits()
@@ -221,7 +243,21 @@ class Walker(object):
         cur = set(states)
         for eff in effs:
             nxt = set()
+            helper = None
+            if eff.kind == "call" and self.depth < 2:
+                h = getattr(self.rule, "helper", None)
+                helper = h(eff.node) if h is not None else None
             for st in cur:
+                if helper is not None:
+                    # a helper the rule does not know (introduced by a refactoring): walk its body in place of the call
+                    fn_node, sub_rule = helper
+                    w = Walker(sub_rule)
+                    w.depth = self.depth + 1
+                    ex = w.run(fn_node, {st})
+                    nxt |= set(ex.normal) | set(s_ for s_, _ in ex.ret)
+                    for rs in ex.raise_:
+                        out["raise"].add((rs[0], eff.node, rs[2]))
+                    continue
                 normal, raising = self.rule.effect(eff, st)
                 nxt |= set(normal)
                 for rs in raising:
